@@ -26,6 +26,21 @@ Proof. exact overwrite_nth. Qed.
 Theorem overwrite_keeps_length : forall buf off bs, 0 <= off -> (Z.to_nat off + length bs <= length buf)%nat -> length (overwrite buf off bs) = length buf.
 Proof. exact overwrite_length. Qed.
 
+(* parsing: the union's value holds the bytes read (the union's size of them; fewer only at the end of input), the stream moves by exactly those
+   bytes, and EVERY member's value is what the member's own type parses from the union's bytes at the member's offset *)
+Theorem members_are_views_of_the_unions_bytes : forall c fuel nm fs al sz s pos ctx v p,
+  l_size (layout_union c al fs) = Some sz -> read_ty c fuel (TUnion nm fs al) s pos ctx = Ok (v, p) ->
+  exists ms, v = VUnion (sread s pos sz) ms /\ p = pos + zlen (sread s pos sz) /\
+    Forall2 (fun f nv => fst nv = f_name f /\
+                         exists lctx q, read_ty c fuel (f_ty f) (sread s pos sz) (match f_off f with Some o => o | None => 0 end) lctx = Ok (snd nv, q)) fs ms.
+Proof. exact union_read_views. Qed.
+Theorem union_parse_consumes_its_size : forall c fuel nm fs al sz s pos ctx v p,
+  l_size (layout_union c al fs) = Some sz -> 0 <= pos -> 0 <= sz -> sz <= zlen (srest s pos) ->
+  read_ty c fuel (TUnion nm fs al) s pos ctx = Ok (v, p) -> p = pos + sz.
+Proof. exact union_read_consumes. Qed.
+
+Print Assumptions members_are_views_of_the_unions_bytes.
+Print Assumptions union_parse_consumes_its_size.
 Print Assumptions union_assign_is_overwrite.
 Print Assumptions overwrite_is_local.
 
@@ -34,3 +49,6 @@ Definition ex_fs := [Fld "a" false (TPrim (PInt 4 false true) 4) None None; Fld 
 Example ex_assign : union_assign ex_cfg ex_fs false (VUnion [1; 2; 3; 4] []) "b" (VList [VInt 9; VInt 8; VInt 7; VInt 6])
   = Ok (VUnion [9; 8; 7; 6] [("a", VInt 101124105); ("b", VList [VInt 9; VInt 8; VInt 7; VInt 6])]).
 Proof. vm_compute. reflexivity. Qed.
+Example ex_read : read_ty ex_cfg 10 (TUnion "u" ex_fs false) [9; 1; 2; 3; 4; 7] 1 [] = Ok (VUnion [1; 2; 3; 4] [("a", VInt 67305985); ("b", VList [VInt 1; VInt 2; VInt 3; VInt 4])], 5)
+  /\ l_size (layout_union ex_cfg false ex_fs) = Some 4.
+Proof. vm_compute. split; reflexivity. Qed.
